@@ -14,6 +14,13 @@ func extraEngines(args []string) bool {
 	switch args[0] {
 	case "sigcheck":
 		sigcheck()
+	case "scatter":
+		scatterEngine()
+	case "gob":
+		gobEngine()
+	case "imp":
+		// dh imp <workdir> <dirk binary>
+		impEngine(args[1], args[2])
 	default:
 		return false
 	}
